@@ -216,6 +216,60 @@ def _template(n: int):
     return _TEMPLATES[n]
 
 
+_SAVED = {}
+
+
+def _template_saved(n: int):
+    """The same n sequential sessions, but the database of the run is the file written by Session.save(<file>) ("open a saved
+    session again").  The unchanged code ignores the file name and writes nothing: then the plain template is used."""
+    if n in _SAVED:
+        return _SAVED[n]
+    d = os.path.join(SCRATCH_ROOT, f"verif-c36-sav-{os.getpid()}-{n}")
+    shutil.rmtree(d, ignore_errors=True)
+    os.makedirs(d)
+    path = os.path.join(d, "androguard.db")
+    saved = os.path.join(d, "saved.db")
+    pid = os.fork()
+    if pid == 0:
+        try:
+            import androguard.session as S
+            s = None
+            for _ in range(n):
+                if s is not None:
+                    s.db.close()
+                s = S.Session(db_url="sqlite:///" + path)
+            try:
+                s.save(saved)
+            except Exception:
+                pass
+            s.db.close()
+            if os.path.exists(saved):
+                c = sqlite3.connect(saved)
+                c.execute("PRAGMA wal_checkpoint(TRUNCATE)")
+                c.close()
+            os._exit(0)
+        except BaseException:
+            os._exit(3)
+    _, st = os.waitpid(pid, 0)
+    out = None
+    if st == 0 and os.path.exists(saved):
+        try:
+            c = procsim._REAL_CONNECT(saved)
+            ids = sorted(read_session_rows(c), key=repr)
+            c.close()
+            if len(ids) == n and len(set(ids)) == n:
+                with open(saved, "rb") as f:
+                    out = (f.read(), ids, True)
+        except sqlite3.Error:
+            out = None
+    shutil.rmtree(d, ignore_errors=True)
+    if out is None:
+        data, ids = _template(n)
+        out = (data, ids, False)
+    _SAVED[n] = out
+    return out
+
+
 # --------------------------------------------------------------------------
 # one run
 # --------------------------------------------------------------------------
@@ -247,8 +301,9 @@ def draw_case(seed: int) -> dict:
             cfg["p_ioerr"] = r.choice([0.002, 0.006, 0.02])
         cfg["restart"] = "restart" in kinds
         cfg["linger"] = "linger" in kinds
-    return {"seed": seed, "scripts": scripts, "db_n": db_n, "cfg": cfg,
-            "db_from_corpus": bool(db_n) and core.rng(seed, "dbsrc").random() < 0.35}
+    from_corpus = bool(db_n) and core.rng(seed, "dbsrc").random() < 0.35
+    return {"seed": seed, "scripts": scripts, "db_n": db_n, "cfg": cfg, "db_from_corpus": from_corpus,
+            "db_via_save": bool(db_n) and not from_corpus and core.rng(seed, "dbsave").random() < 0.3}
 
 
 class Verdicts:
@@ -328,6 +383,7 @@ def run_case(case: dict, recorded=None, strict=False) -> dict:
     os.makedirs(d)
     path = os.path.join(d, "androguard.db")
     pre_ids = []
+    via_save = None
     try:
         if case["db_n"] and case.get("db_from_corpus"):
             # a database written by the unchanged code at the time corpus/db was made ("an older version")
@@ -338,6 +394,11 @@ def run_case(case: dict, recorded=None, strict=False) -> dict:
             c0.close()
             with open(path, "wb") as f:
                 f.write(data)
+        elif case["db_n"] and case.get("db_via_save"):
+            data, pre_ids, was_saved = _template_saved(case["db_n"])
+            with open(path, "wb") as f:
+                f.write(data)
+            via_save = "database-written-by-Session.save(file)" if was_saved else "Session.save(file)-wrote-no-file:plain-template-used"
         elif case["db_n"]:
             data, pre_ids = _template(case["db_n"])
             with open(path, "wb") as f:
@@ -385,6 +446,8 @@ def run_case(case: dict, recorded=None, strict=False) -> dict:
                 open_count.pop(a, None)
         if res.bypass:
             res.probe("dbapi-call-bypassed-scheduling-point", res.bypass)
+        if via_save:
+            res.probe(via_save)
         return {
             "seed": seed,
             "problems": v.problems,
@@ -444,7 +507,7 @@ def shrink(case: dict, decisions: list, target: str, budget: int = 120):
 
     def clone(c):
         return {"seed": c["seed"], "scripts": [list(s) for s in c["scripts"]], "db_n": c["db_n"],
-                "cfg": dict(c["cfg"]), "db_from_corpus": c.get("db_from_corpus", False)}
+                "cfg": dict(c["cfg"]), "db_from_corpus": c.get("db_from_corpus", False), "db_via_save": c.get("db_via_save", False)}
 
     case, decisions = clone(case), [list(x) for x in decisions]
     # 1. drop whole processes (empty script), 2. drop trailing ops
@@ -506,7 +569,7 @@ def make_replay(case, decisions, target, minimised_from=None):
     msg = [m for s, m in out["problems"] if s == target][0]
     payload = {
         "property": PROP, "engine": "procsim", "seed": case["seed"],
-        "config": case["cfg"], "scripts": case["scripts"], "db_n": case["db_n"], "db_from_corpus": case.get("db_from_corpus", False),
+        "config": case["cfg"], "scripts": case["scripts"], "db_n": case["db_n"], "db_from_corpus": case.get("db_from_corpus", False), "db_via_save": case.get("db_via_save", False),
         "decisions": out["decisions"],
         "faults": [[i, d[1]] for i, d in enumerate(out["decisions"]) if d[1]],
         "violation": {"class": target.split(":")[1], "signature": target, "message": msg},
@@ -521,7 +584,7 @@ def make_replay(case, decisions, target, minimised_from=None):
 def replay(path: str) -> int:
     rp = core.load_replay(path)
     case = {"seed": rp["seed"], "scripts": rp["scripts"], "db_n": rp["db_n"], "cfg": rp["config"],
-            "db_from_corpus": rp.get("db_from_corpus", False)}
+            "db_from_corpus": rp.get("db_from_corpus", False), "db_via_save": rp.get("db_via_save", False)}
     out = run_case(case, recorded=rp["decisions"], strict=True)
     sigs = _sigs(out)
     want = rp["violation"]["signature"]
